@@ -239,6 +239,17 @@ def runCmds {σ : Type} (step : σ → Op → σ × Ret) (concurrent : Nat) : σ
 def preload {σ : Type} (step : σ → Op → σ × Ret) (s : σ) (objs : List (Replicat.Name × Bytes)) : σ :=
   objs.foldl (fun s (n, d) => (step s (.upload n d)).1) s
 
+/-- the backend call every pick of a schedule makes (`none` for a pick of a finished or unknown task) -/
+def schedCalls (skip : Bool) : Spec → List ObjCmd.Task → List Replicat.Name → List String
+  | _, _, [] => []
+  | m, ts, n :: sched =>
+    let k := match ts.find? (fun t => decide (t.name = n)) with
+      | none => "none"
+      | some t => match t.nextCall skip with
+        | some op => (opKind op).1
+        | none => "none"
+    (k ++ " " ++ String.ofList n) :: schedCalls skip (ObjCmd.stepTask skip m ts n).1 (ObjCmd.stepTask skip m ts n).2 sched
+
 /-- `store.cmd.run`: a scenario = initial objects + a list of commands, each with its local tree; the backend state chains -/
 def handleCmd (op : String) (j : Json) : Except String Json := do
   match op with
@@ -269,6 +280,22 @@ def handleCmd (op : String) (j : Json) : Except String Json := do
       let dirs := sortStrs (s.dirs.map (fun p => String.ofList (joinSlash p)))
       pure (Json.mkObj [("results", Json.arr rs.toArray), ("state", mapJson files), ("dirs", Json.arr (dirs.map Json.str).toArray)])
     | a => throw s!"unknown adapter {a}"
+  | "store.cmd.schedule" =>
+    -- the gathered upload tasks under an observed schedule (`runSchedule`): the call each pick makes, whether all tasks finish, the map afterwards
+    let objs ← (← getArr j "store").toList.mapM (fun e => do
+      let a ← e.getArr?
+      if h : a.size = 2 then pure ((← a[0].getStr?).toList, (← unhex (← a[1].getStr?))) else throw "object must be [name, hex]")
+    let its ← (← getArr j "items").toList.mapM (fun e => do
+      let a ← e.getArr?
+      if h : a.size = 2 then pure ((← a[0].getStr?).toList, (← unhex (← a[1].getStr?))) else throw "item must be [name, hex]")
+    let skip ← getBool j "skip_existing"
+    let sched := (← getStrList j "schedule").map String.toList
+    let m0 : Spec := MapStore.abs (preload MapStore.step ([] : MapStore) objs)
+    let r := ObjCmd.runSchedule skip m0 (ObjCmd.initTasks its) sched
+    let names := ((objs.map (·.1)) ++ (its.map (·.1))).eraseDups
+    let state := names.filterMap (fun n => (r.1 n).map (fun d => (String.ofList n, d)))
+    pure (Json.mkObj [("calls", Json.arr ((schedCalls skip m0 (ObjCmd.initTasks its) sched).map Json.str).toArray),
+                      ("done", Json.bool (r.2.all (fun t => t.phase = .done))), ("state", mapJson state)])
   | "store.cmd.name" =>
     -- the object name `upload_objects` derives for a file, given the working directory
     pure (Json.mkObj [("name", jstr (ObjCmd.objectName (pathOf (← getStr j "cwd")) (pathOf (← getStr j "file"))))])
